@@ -40,8 +40,9 @@ pub struct Cfg {
     pub bulk: bool,
 }
 
-/// Capacity of a worker's connection queue (`max_queue_length` of `pavex::server`).
-pub const QUEUE_CAP: usize = 15;
+/// Capacity of a worker's connection queue (`max_queue_length` of `pavex::server`, 15 on the pinned tree). Not part of the
+/// property: the engine MEASURES it on the implementation (engine::calibrate_cap) and the shadow model mirrors the measured value.
+pub static QUEUE_CAP: std::sync::atomic::AtomicUsize = std::sync::atomic::AtomicUsize::new(15);
 
 #[derive(Clone, Copy, PartialEq, Eq, Hash, Debug, Serialize, Deserialize, PartialOrd, Ord)]
 pub enum Action {
@@ -422,7 +423,7 @@ impl State {
                     let mut target: Option<u8> = None;
                     for _ in 0..n {
                         let w = s.next_w;
-                        if s.w[w as usize] == WPos::Parked || s.queue[w as usize].len() < QUEUE_CAP {
+                        if s.w[w as usize] == WPos::Parked || s.queue[w as usize].len() < QUEUE_CAP.load(std::sync::atomic::Ordering::Relaxed) {
                             target = Some(w);
                             break;
                         }
